@@ -18,6 +18,7 @@ from pathlib import Path
 from collections import OrderedDict  # TODO: replace by dict
 
 from resolva import Resolver
+from resolva.utils import ResolvaException
 
 from spil.util.caching import lru_kw_cache as cache
 from spil.util.log import debug
@@ -33,6 +34,44 @@ from spil.sid.pathops.pathconfig import get_path_config, PathConfig
 File system resolver
 Path <-> dict translation
 """
+
+
+def _resolve_exact(r: Resolver, path: str, _type: Optional[str] = None) -> Tuple[str, dict] | Tuple[None, None]:
+    """
+    Resolves the path with the given template "_type", or with the first template that resolves it exactly.
+
+    A template resolves a path exactly if the resolved data renders back to the path:
+    - the literal parts of the templates are given to the resolver as regular expressions
+    (a "." matches any character), and its end anchor also matches before a trailing newline,
+    - a template that repeats a field (in the directory and in the file name) does not match
+    if the field has different values (the resolver raises a ResolvaException).
+
+    Returns a copy of the data (the resolver caches and shares the resolved dictionaries).
+    """
+    labels = [_type] if _type else r.get_labels()
+    try:
+        if _type:
+            template, data = _type, r.resolve_one(path, _type)
+        else:
+            template, data = r.resolve_first(path)
+        if not data:
+            return None, None
+        if r.get_format_for(template).format(**data) == path:
+            return template, dict(data)
+        labels = [label for label in labels if label != template]
+    except ResolvaException:
+        pass
+
+    # The first matching template does not resolve the path exactly: we look for another one.
+    for label in labels:
+        try:
+            data = r.resolve_one(path, label)
+        except ResolvaException:
+            continue
+        if data and r.get_format_for(label).format(**data) == path:
+            return label, dict(data)
+
+    return None, None
 
 
 @cache
@@ -56,11 +95,7 @@ def path_to_dict(
     pc = get_path_config(config)
     r = Resolver.get(pc.name)
 
-    if _type:
-        data = r.resolve_one(path, _type)
-        template = _type
-    else:
-        template, data = r.resolve_first(path)
+    template, data = _resolve_exact(r, path, _type)
 
     if not data:
         return None, None
